@@ -121,3 +121,34 @@ def c11(case, det):
         if ok:
             return "KF-17"
     return None
+
+
+import re as _re
+
+_OP_COMMENT_SEMI = _re.compile(r"[+\-*/<>=|&^%@#!~]/\*[^*]*?;")
+_COMMENT_KINDS = {"block", "line", "ins_block", "ins_line"}
+
+
+def c07(case, diff, o, v):
+    kinds = {s["kind"] for s in case.get("spec", [])}
+    txt = case.get("rewritten", "")
+    # KF-31: sqlparse's lexer does not recognise a block comment that directly follows an operator character
+    # ('+/* a;b */'): the ';' inside it splits the statement
+    if _OP_COMMENT_SEMI.search(txt) and (diff is None or v.get("n_statements") != o.get("n_statements")):
+        return "KF-31"
+    if case.get("dialect") != "non-validating" and kinds & _COMMENT_KINDS and diff == ["column_pairs"]:
+        # KF-13: a sub-query inside a select item is re-analysed from its raw text by a nested sqlparse run, so comments
+        # inside it change the columns found (tokens glued / mis-grouped as under KF-30c)
+        if _feat(case)["select_has_subquery"]:
+            return "KF-13"
+    if case.get("dialect") == "non-validating":
+        # the legacy sqlparse analyzer is layout sensitive in three separate ways
+        if kinds & _COMMENT_KINDS:
+            return "KF-30c"
+        if _re.search(r"union\s+all", txt, _re.I) and not _re.search(r"union all", txt, _re.I) is None or _re.search(r"union(\s{2,}|[\t\n]+\s*)all", txt, _re.I):
+            return "KF-30a"
+        if kinds & {"upper", "swap", "mixed"} and any(m != "cast" for m in _re.findall(r"(?i)\b(cast)\s*\(", txt)):
+            return "KF-30b"
+        if "quote" in kinds:
+            return "KF-30d"
+    return None
